@@ -235,9 +235,10 @@ func (s *atpServerSession) onRuntimeMessageReceived(message *DecodedRuntimeMessa
 		var workStartMsg WorkStartMessage
 		if err := s.decMode.Unmarshal(message.RawMessageData, &workStartMsg); err != nil {
 			s.workDone <- ServerError{
-				RunID:       runID,
-				Err:         fmt.Errorf("failed to decode work start message: %w", err),
-				StepFatal:   true,
+				RunID: runID,
+				Err:   fmt.Errorf("failed to decode work start message: %w", err),
+				// Without a run ID it is the end of no run: a step fatal error without a run ID ends every run.
+				StepFatal:   runID != "",
 				ServerFatal: false,
 			}
 			return false
@@ -287,11 +288,12 @@ func (s *atpServerSession) onRuntimeMessageReceived(message *DecodedRuntimeMessa
 func (s *atpServerSession) handleWorkStartMessage(runID string, workStartMsg WorkStartMessage) {
 	if runID == "" || workStartMsg.StepID == "" {
 		s.workDone <- ServerError{
-			// Report it for the run it belongs to, if known: an error without a run ID fails every running step.
+			// Report it for the run it belongs to, if known: an error without a run ID fails every running step - so
+			// without a run ID it is not reported as the end of a step (no step was started, and nobody waits for one).
 			RunID: runID,
 			Err: fmt.Errorf("missing runID (%s) or stepID in work start message (%s)",
 				runID, workStartMsg.StepID),
-			StepFatal:   true,
+			StepFatal:   runID != "",
 			ServerFatal: false,
 		}
 		return
